@@ -123,12 +123,21 @@ pub fn run(ctx: &mut Ctx) {
                 }
             }
         }
+        // an almost equally spaced set (an almost flat spectrum: every coefficient of A(z) is
+        // tiny, their ripple is still several thousandths of a neper at the higher stages)
+        if idx % 16 == 11 {
+            let amp = *rng.pick(&[2e-4, 1e-4, 5e-4, 1e-3, 3e-5]);
+            let f = rng.uniform(0.3, 1.1);
+            w = (1..=m).map(|i| i as f64 * PI / (m as f64 + 1.0) + amp * (f * (i * i) as f64).sin()).collect();
+            ctx.count("almost_equally_spaced_sets", 1.0);
+        }
         // (a gain of exactly one is a corner of the gain normalisation)
         // (the filter is linear in K: very quiet and very loud voices as well)
         let k = if idx % 10 == 3 {
             1.0
         } else if idx % 3 == 1 {
-            rng.log_uniform(1e-6, 400.0)
+            // (down to e^-28 in either convention)
+            rng.log_uniform(if idx % 2 == 0 { 1e-6 } else { 7e-13 }, 400.0)
         } else {
             rng.log_uniform(0.2, 5.0)
         };
